@@ -36,7 +36,9 @@ def rexpr(rnd, d=0, fnames=('ff',), ops=OPS, leafs=None):
             return num(rnd.choice([1, 3, 5]), rnd.choice([2, 4]))
         if c < 0.8:
             return var(rnd.choice(VARS + ['null', 'true', 'false']))
-        return s(rnd.choice(['', 'x', 'ab']))
+        if c < 0.9:
+            return s(rnd.choice(['', 'x', 'ab']))
+        return call(rnd.choice(['objectNew', 'arrayNew']))          # empty containers: {} is truthy, [] is falsy
     if r < 0.48:
         return call('probe', num(rnd.randint(0, 9)), rexpr(rnd, d + 1, fnames, ops))
     if r < 0.56:
